@@ -346,7 +346,8 @@ TRUSTED_BASE_COMMON = [
     'OCaml 4.13.1 ocamlfind ocamlopt; ocaml/drv_*.ml, zz_main.ml (line-oriented driver, plug-in registry)',
     'correspondence harness tools/*.py (differential runs of the extracted model against /repo); second route for the lexer, '
     'splitter and parser stages (C01, C02, C05): a sample incl. the corpus is evaluated by the KERNEL (vm_compute inside coqc over '
-    'Inst/Encode.v, no extraction / OCaml / driver) and compared with the implementation (tools/kernel_corr.py)',
+    'Inst/Encode.v, no extraction / OCaml / driver) and compared with the implementation (tools/kernel_corr.py); likewise '
+    'the final strings of four formatting option sets in C10 (Inst/EncodeFmt.v)',
     'modelled rather than verified: CPython re engine structure semantics (Regex/Re.v), str '
     'methods, hand-modelled loops of sqlparse (tied by stage-wise differential runs)',
 ]
